@@ -197,6 +197,17 @@ add(
     "A configuration valid by the statement may be rejected for reasons the statement does not list. Accepted quantis / lambda_-1 configurations are initialised but not run here (plug-in engine has no energies).",
 )
 
+add(
+    "C14",
+    "property-based round-trip testing of PathStorage/load_path (Hypothesis) + model-based history testing of file retention with a deterministic runner",
+    "(a) generated paths (multi-file, arbitrary frame order and indices, reversed frames, 1-3 order components on/off the 6-decimal grid, missing "
+    "energies, keep_traj_fnames side files) are stored and loaded back: same length, references, directions, orders and energies to six decimals, "
+    "file contents intact under the path's own directory, source object unchanged. (b) " + HIST[0].lower() + HIST[1:] +
+    "After every step: files of all live paths and of the active paths of the restart file on disk exist, no file shared, initial paths "
+    "byte-identical, replaced paths deleted only with delete_old and not before the lag.",
+    "Distinct basenames within a path (pid+counter prefixes). The asserted lag is one replacement less than the implemented one. Crash windows inside a step belong to C08.",
+)
+
 NOT_YET = "check not built yet in this session (design exists in DESIGN.md §4); will be claimed once its check is registered"
 
 
